@@ -22,7 +22,7 @@ theorem stripEnum_extend (es : List Entry) (e : ItemEnum) :
 /-- the first emitted segment -/
 def itemSeg (segs : List OSeg) : Option Toks :=
   match segs with
-  | { label := _, body := .toks ts } :: _ => some ts
+  | { label := _, body := .toks ts } :: _ => some ts.strs
   | _ => none
 
 /-- struct: when the trait list parses, the re-emitted item is the input minus exactly
@@ -57,8 +57,10 @@ theorem reemit_on_arg_error_enum (args : Args) (e : ItemEnum)
   simp [expandAttr, itemSeg, enumCore, hes, h0]
 
 /-- `impl` items and unsupported items are re-emitted verbatim -/
-theorem reemit_impl (args : Args) (i : ItemImpl) : itemSeg (expandAttr args (.impl_ i)) = some i.toks := rfl
-theorem reemit_other (args : Args) (ts : Toks) : itemSeg (expandAttr args (.other ts)) = some ts := rfl
+theorem reemit_impl (args : Args) (i : ItemImpl) : itemSeg (expandAttr args (.impl_ i)) = some i.toks := by
+  simp [expandAttr, itemSeg]
+theorem reemit_other (args : Args) (ts : Toks) : itemSeg (expandAttr args (.other ts)) = some ts := by
+  simp [expandAttr, itemSeg]
 
 /-- on every path (success, per-trait error, whole-item error) an item segment is emitted -/
 theorem item_always_emitted (args : Args) (item : Item) : (itemSeg (expandAttr args item)).isSome = true := by
